@@ -608,7 +608,7 @@ pub fn run(args: &Args) -> ! {
         by_size[size].push(i);
     }
     let max_size = args.extra_usize("decls").unwrap_or(8);
-    // process-level runs: quick = workspaces with ≤ 2 declarations and all with 8; thorough = all
+    // process-level runs: quick = workspaces with ≤ 2 declarations and the all-in-main one; thorough = all
     let bin_all = args.tier == Tier::Thorough;
     let cache: Cache = Mutex::new(HashMap::new());
     let counters: Mutex<(u64, u64, u64, u64, u64, [usize; 3])> = Mutex::new((0, 0, 0, 0, 0, [0; 3]));
@@ -625,7 +625,7 @@ pub fn run(args: &Args) -> ! {
                 p[d] = dg[d] as u8;
             }
             let dir = base.join(format!("t{}", thread_slot()));
-            let with_bin = bin_all || size <= 2 || size == 8;
+            let with_bin = bin_all || size <= 2 || p[..8].iter().all(|&x| x == 1);
             let o = Opts { binary: if with_bin { Some(&bin) } else { None }, bin_runs: 3, max_perm_len: 6, reloads: 1 };
             let r = match catch(|| check_case(&dir, &p, &o)) {
                 Ok(r) => r,
@@ -679,7 +679,7 @@ pub fn run(args: &Args) -> ! {
         "workspaces_completed": workspaces_done,
         "seam_orders": "full product of all k! orders of the three sites",
         "max_list_lengths_seen": {"types": c.5[0], "globals": c.5[1], "modules": c.5[2]},
-        "process_level": if bin_all { "3 fresh processes for every workspace" } else { "3 fresh processes for every workspace with ≤ 2 or all 8 declarations" },
+        "process_level": if bin_all { "3 fresh processes for every workspace" } else { "3 fresh processes for every workspace with ≤ 2 declarations and for the one with all 8 in the main workspace" },
     });
     rep.assumptions = vec![
         "the order of each exported list is decided only at the three seams; this is checked, not assumed: a second in-process load and the fresh-process outputs must be reachable with the seams pinned/permuted, otherwise `unowned-nondeterminism` is reported".into(),
